@@ -101,7 +101,7 @@ func c18Shrink(kind string, raw []byte) [][]byte {
 var c18Names = []string{"a", "b", "c", "d/e.yaml", "n5"}
 var c18Tags = []string{"t1", "t2", "t3", "*", ""}
 
-func c18GenOpts(r *rand.Rand, combo bool) []c18Opt {
+func c18GenOpts(r *rand.Rand, combo bool, tags []string) []c18Opt {
 	var opts []c18Opt
 	nt := []int{0, 0, 1, 1, 1, 2}[r.Intn(6)]
 	tagOpt := func() c18Opt {
@@ -111,7 +111,7 @@ func c18GenOpts(r *rand.Rand, combo bool) []c18Opt {
 		}
 		ts := make([]string, n)
 		for i := range ts {
-			ts[i] = pick(r, c18Tags)
+			ts[i] = pick(r, tags)
 		}
 		return c18Opt{K: "tags", Tags: ts}
 	}
@@ -140,12 +140,14 @@ func c18GenCase(r *rand.Rand, n int, combo bool) c18Case {
 	g := stdGen()
 	g.MaxDepth, g.MaxWidth, g.ListMax = 2, 2, 2
 	g.Types = []string{"int", "string", "bool"}
-	g.Strings = []string{"", "s", "x y", "héllo", "1"}
-	names := append([]string{}, c18Names...)
+	g.Strings = []string{"", "s", "x y", "héllo", "1", " s", "s ", "S", "\U0001F680", "\ufffd", "a\nb", "18446744073709551616", "1e3", "~", "{}"}
+	// names and tags: the classic pools, or (half of the histories) pools of confusable spellings (c18_names.go)
+	names, nameProbes := c18PickNames(r)
+	tags, tagProbes := c18PickTags(r)
 	if combo {
 		names = append(names, "default__1", "default__2")
 	}
-	cs := c18Case{Names: append(append([]string{}, names...), "unknown", "default__1", "@/f1.yaml", "@/f1.json", "@/f2.yaml", "@/f2.json"), Ops: []c18Op{}}
+	cs := c18Case{Names: append(append(append([]string{}, names...), nameProbes...), "unknown", "default__1", "@/f1.yaml", "@/f1.json", "@/f2.yaml", "@/f2.json"), Ops: []c18Op{}}
 	// what the set holds under a name if it follows the property (the generator's own bookkeeping, used only to
 	// aim re-adds at EQUAL content: the same text loaded twice, an equal document built separately, a clone)
 	type held struct {
@@ -158,7 +160,16 @@ func c18GenCase(r *rand.Rand, n int, combo bool) c18Case {
 		if m, ok := wireCont(doc); ok {
 			m["id"] = scalarWire(i) // unique marker: a stale document is visible
 		}
-		op := c18Op{Name: pick(r, names), Doc: doc, Opts: c18GenOpts(r, combo)}
+		switch r.Intn(14) {
+		case 0, 1:
+			// an EMPTY document is a document like any other: registered, served, kept by must-create / merge-tags
+			// (no marker: what is served is told apart by instance identity)
+			doc = map[string]any{"m": map[string]any{}}
+		case 2:
+			// explicitly empty-but-present values only
+			doc = map[string]any{"m": map[string]any{pick(r, []string{"e", "id"}): pick(r, []W{map[string]any{"m": map[string]any{}}, []any{}, scalarWire(""), scalarWire(nil)})}}
+		}
+		op := c18Op{Name: pick(r, names), Doc: doc, Opts: c18GenOpts(r, combo, tags)}
 		switch k := r.Intn(20); {
 		case k < 10:
 			op.K = "add"
@@ -240,7 +251,7 @@ func c18GenCase(r *rand.Rand, n int, combo bool) c18Case {
 		n := 1 + r.Intn(2)
 		q := make([]string, n)
 		for i := range q {
-			q[i] = pick(r, append(c18Tags, "zz"))
+			q[i] = pick(r, append(append(append([]string{}, tags...), tagProbes...), "zz"))
 		}
 		qs = append(qs, q)
 	}
@@ -569,10 +580,11 @@ func c18Eval(c *Ctx, kind string, raw []byte) {
 		}
 		c.Dist("policy:" + policy)
 		refName := strip(name)
+		haveName := true // "" is a name like any other
 		expectErr := false
 		if op.K == "unnamed" {
 			// the generated name is whatever new layer name appeared
-			refName = ""
+			refName, haveName = "", false
 			var fresh []string
 			for _, n := range asOne.Names {
 				if _, ok := ref.docs[n]; !ok {
@@ -583,7 +595,7 @@ func c18Eval(c *Ctx, kind string, raw []byte) {
 				c.Direct("unnamed-gets-one-fresh-name", err == nil && len(fresh) == 1, map[string]any{"step": i, "fresh": fresh, "err": errTag(err)})
 			}
 			if len(fresh) == 1 {
-				refName = fresh[0]
+				refName, haveName = fresh[0], true
 				for _, g := range generated {
 					c.Direct("unnamed-names-distinct", g != refName, map[string]any{"step": i, "name": refName})
 				}
@@ -596,10 +608,13 @@ func c18Eval(c *Ctx, kind string, raw []byte) {
 			if failing {
 				c.Dist("input-error:reader-fails-part-way")
 			}
-		} else if refName != "" {
+		} else if haveName {
 			if old, exists := ref.docs[refName]; exists {
 				readds++
 				c.Dist("readd:" + policy)
+				if old == `{"m":{}}` {
+					c.Dist("readd-over-empty-stored-document:" + policy)
+				}
 				if old == canon(docW) {
 					c.Dist("readd-equal-content:" + policy)
 					if len(op.Opts) == 0 {
@@ -624,7 +639,7 @@ func c18Eval(c *Ctx, kind string, raw []byte) {
 			}
 		}
 		step := map[string]any{"err": err != nil, "asOne": asOne}
-		if direct && refName != "" {
+		if direct && haveName {
 			out, txt = guard(func() {
 				servedNow := ds.NamedDocument(unstrip(refName))
 				_, known := inst[refName]
